@@ -218,6 +218,10 @@ class Check:
         self.violations = []     # list of dict(desc, case)
         self.known_hits = []
         self.scratch = tempfile.mkdtemp(prefix='verif-%s-' % pid)
+        # every child process (each murex start creates a murex<random> directory in TMPDIR; go build; java) keeps its
+        # temporary files inside the scratch directory, which is removed when the run ends
+        os.makedirs(os.path.join(self.scratch, 'tmp'))
+        os.environ['TMPDIR'] = os.path.join(self.scratch, 'tmp')
         self.known = load_known().get(pid, [])
 
     # ---- verdict bookkeeping
